@@ -67,6 +67,11 @@ pub fn observe(bins: &Binaries, cmd: &Cmd, in_dir: &Path, out_dir: &Path, env: &
         // the file is not named on the command line
         args.retain(|a| !a.starts_with(&*in_dir.to_string_lossy()));
     }
+    // a command that names its input must not look at the stdin it inherits
+    let stdin_data = match (&stdin_data, env.stdin_noise, cmd.files.first()) {
+        (None, true, Some((_, content))) => Some(content.clone().into_bytes()),
+        _ => stdin_data,
+    };
     if let (Some(us), true) = (env.crash_first_us, cmd.uses_out) {
         // crash-restart: an earlier run of the very same command died at an arbitrary point
         if let Ok(true) = e2::crash_anthem(bins, &args, in_dir, env, us) {
@@ -279,7 +284,11 @@ fn run_history_x(workload_file: &Path, indices: &[usize]) -> (Vec<HistoryLine>, 
         .output()
         .unwrap_or_else(|e| harness_error(&format!("cannot start c18-history: {e}")));
     let text = String::from_utf8_lossy(&out.stdout).into_owned();
-    let stray = text.lines().any(|l| l.contains("\"stray_stdout\":true"));
+    let n_lines = text.lines().filter(|l| serde_json::from_str::<HistoryLine>(l).is_ok()).count();
+    // (a history process that ends with status 0 before it is through was ended by the tree itself calling exit():
+    // nothing can be concluded from it)
+    let exited_early = out.status.code() == Some(0) && n_lines < indices.len();
+    let stray = exited_early || text.lines().any(|l| l.contains("\"stray_stdout\":true"));
     (text.lines().filter_map(|l| serde_json::from_str(l).ok()).collect(), stray)
 }
 
@@ -327,6 +336,7 @@ fn count_dims(t: &mut Tally, e: &Env) {
     b("other_working_directory", e.other_cwd);
     b("output_directory_with_stale_files", e.dirty_out);
     b("crash_restart_on_same_output_directory", e.crash_first_us.is_some());
+    b("inherited_stdin_carries_a_copy_of_the_input", e.stdin_noise);
     b("native_no_interposer", !e.preload);
 }
 
